@@ -10,6 +10,7 @@ pub mod c12;
 pub mod c13;
 pub mod c14;
 pub mod c15;
+pub mod c16;
 pub mod c17;
 pub mod c18;
 pub mod idx;
@@ -27,6 +28,7 @@ pub fn dispatch(prop: &str, cfg: &RunCfg, out: &Out) {
         "C13" => c13::run(cfg, out),
         "C14" => c14::run(cfg, out),
         "C15" => c15::run(cfg, out),
+        "C16" => c16::run(cfg, out),
         "C17" => c17::run(cfg, out),
         other => out.inconclusive(&format!("no workload for {}", other)),
     }
